@@ -245,8 +245,14 @@ def rangesLoop : List Nat → Nat → List (Nat × Nat) → Nat × List (Nat × 
   | [], current, out => (current, out)
   | idx :: rest, current, out => rangesLoop rest (idx + 1) (out ++ [(current, idx + 1)])
 
-def setIndices (bs : List Bool) : List Nat :=
-  (List.range bs.length).filter (fun i => bs.getD i false)
+/-- `BooleanBuffer::set_indices`: positions of the set bits, ascending (the iterator itself is
+C19's subject) -/
+def setIndicesFrom : Nat → List Bool → List Nat
+  | _, [] => []
+  | p, true :: bs => p :: setIndicesFrom (p + 1) bs
+  | p, false :: bs => setIndicesFrom (p + 1) bs
+
+def setIndices (bs : List Bool) : List Nat := setIndicesFrom 0 bs
 
 def partitionRanges (bounds : List Bool) (len : Nat) : List (Nat × Nat) :=
   if len = 0 then [] else
